@@ -69,7 +69,6 @@ package magic
 //@   ghost return: zip_hdr = off(b) - off(raw) - 30
 //@   ensures [C19_witness] result ==> 0 <= zip_hdr && zip_hdr + 30 + len(sig) <= len(raw) && (zip_hdr == 0 || pkAt(raw, zip_hdr)) && hasPrefix(raw[zip_hdr+30:], sig)
 //@   ensures [C19_layout1] len(raw) >= 30 && nameIs(raw, 0, sig) ==> result
-//@   ensures [C19_mso_first] result && msoCheck ==> hasPrefix(raw[30:], sig) || hasPrefix(raw[30:], "[Content_Types].xml") || hasPrefix(raw[30:], "_rels/.rels") || hasPrefix(raw[30:], "docProps") || hasPrefix(raw[30:], "customXml") || hasPrefix(raw[30:], "[trash]")
 
 //@ func magic.offset$1
 //@   inline
